@@ -34,16 +34,24 @@ def stepLine (w : World) (line : String) : World × String × String :=
     let (w', r) := Api.step w op
     (w', r.str, r.site)
 
-/-- run steps on a fresh world; after a panic the remaining steps are skipped -/
-def runLines (lines : List String) : List (String × String) :=
-  let rec go : List String → World → Bool → List (String × String)
-    | [], _, _ => []
+/-- run steps on a fresh world; after a panic the remaining steps are skipped; also returns the final world -/
+def runLinesW (lines : List String) : List (String × String) × World :=
+  let rec go : List String → World → Bool → List (String × String) × World
+    | [], w, _ => ([], w)
     | l :: ls, w, dead =>
-      if dead then ("skipped", "") :: go ls w true
+      if dead then
+        let (r, wf) := go ls w true
+        (("skipped", "") :: r, wf)
       else
         let (w', r, site) := stepLine w l
-        (r, site) :: go ls w' (r == "panic")
+        let (rest, wf) := go ls w' (r == "panic")
+        ((r, site) :: rest, wf)
   go lines { v := liteValidators } false
+
+def runLines (lines : List String) : List (String × String) := (runLinesW lines).1
+
+/-- did the model ever take a memo hit under a different static attribute prefix (finding classification)? -/
+def prefixReuseIn (w : World) : Bool := w.nss.any fun p => p.2.esc.prefixReuse
 
 def opOf (line : String) : String := (fieldsOf line).headD ""
 def isExecOp (op : String) : Bool := op == "exec" || op == "exect" || op == "exechtml" || op == "execthtml"
